@@ -63,7 +63,7 @@ func genC16CLI(rt *rapid.T) *C16CLI {
 			st.Doc = rapid.SampledFrom(c16Docs).Draw(rt, "doc")
 		}
 		return st
-	}), 1, 10).Draw(rt, "steps")
+	}), 1, tierN(10, 25)).Draw(rt, "steps")
 	return c
 }
 
